@@ -301,6 +301,10 @@ class AbstractEval:
         # method call on a typed symbolic receiver -> inline
         if isinstance(f, ast.Attribute):
             recv = self.ev(f.value, env)
+            if hasattr(recv, "model_attr") and not isinstance(recv, (Sym, App)):
+                m = recv.model_attr(f.attr)
+                if callable(m):
+                    return m(*args, **kwargs)  # a modelled library function (inspect.isclass, ...)
             rt = self.type_of.get(term(recv)) if isinstance(recv, (Sym, App)) else None
             if rt:
                 target = self.prog.lookup(rt, f.attr)
@@ -403,6 +407,8 @@ class AbstractEval:
             else:
                 self.block(s.orelse, env)
             self.block(s.finalbody, env)
+        elif isinstance(s, (ast.FunctionDef, ast.AsyncFunctionDef)):
+            env[s.name] = App("lambda", (s.name,))  # a local helper is an opaque callable, like a lambda
         elif isinstance(s, ast.For) and self.generic_loops:
             it = self.ev(s.iter, env)
             items = list(it) if isinstance(it, (tuple, list)) else [App("elem", (it,))]
